@@ -67,6 +67,46 @@ def toy1_class():
     return Toy1
 
 
+def toy1r_class():
+    """Toy1 in a ROTATED two-field basis plus a heavy orthogonal direction: V = Toy1(u) + m2/2 T^2 w^2 with
+    u = c x1 + s x2, w = -s x1 + c x2.  The Hessian at the broken minimum (c phi_b, s phi_b) is NOT diagonal in (x1, x2)."""
+    Toy1 = toy1_class()
+
+    class Toy1r(Toy1):
+        fieldCount = 2
+
+        def __init__(self, theta=0.6, m2=0.8, **kw):
+            super().__init__(**kw)
+            self.theta, self.m2 = theta, m2
+            self.c, self.s = math.cos(theta), math.sin(theta)
+
+        def evaluate(self, fields, temperature):
+            x1, x2 = fields.getField(0), fields.getField(1)
+            uu, ww = self.c * x1 + self.s * x2, -self.s * x1 + self.c * x2
+            T = np.asarray(temperature)
+            return (self.D * (T ** 2 - self.T0 ** 2) * uu ** 2 - self.E * T * uu ** 3 + self.lam / 4 * uu ** 4 - self.a * T ** 4
+                    + self.m2 / 2 * T ** 2 * ww ** 2)
+
+        def grad(self, x, T):
+            uu, ww = self.c * x[0] + self.s * x[1], -self.s * x[0] + self.c * x[1]
+            gu = 2 * self.D * (T ** 2 - self.T0 ** 2) * uu - 3 * self.E * T * uu ** 2 + self.lam * uu ** 3
+            gw = self.m2 * T ** 2 * ww
+            return np.array([self.c * gu - self.s * gw, self.s * gu + self.c * gw])
+
+        def hess(self, x, T):
+            uu = self.c * x[0] + self.s * x[1]
+            huu = 2 * self.D * (T ** 2 - self.T0 ** 2) - 6 * self.E * T * uu + 3 * self.lam * uu ** 2
+            hww = self.m2 * T ** 2
+            R = np.array([[self.c, self.s], [-self.s, self.c]])
+            return R.T @ np.diag([huu, hww]) @ R
+
+        def brokenPoint(self, T):
+            p = float(self.phiBroken(T))
+            return np.array([self.c * p, self.s * p])
+
+    return Toy1r
+
+
 def toy2_class():
     WallGo = _wg()
 
